@@ -14,7 +14,9 @@ CONSTANTS MaxN      \* maximal number of pending change commands
 Types     == {"asa", "ios", "linux", "panos", "nsx"}
 Frontends == {"drc", "doapprove"}
 Verbs     == {"approve", "compare"}
-Markers   == {"present", "absent", "unconfigured"}
+\* "partial": PAN-OS with two vsys of which only the second carries the marker (as bad as "absent")
+Markers   == {"present", "absent", "unconfigured", "partial"}
+NoMarker  == {"absent", "partial"}
 \* local state of a PAN-OS HA member; everything but "active" (and "off" = no HA) must be left alone
 HAStates  == {"off", "active", "passive", "suspended"}
 NotActive == {"passive", "suspended"}
@@ -42,6 +44,7 @@ Params ==
 WellFormed(p) ==
   /\ (p.ha # "off" => p.type = "panos")
   /\ (p.type = "nsx" => p.marker = "unconfigured" /\ p.nameOK)    \* NSX has neither check
+  /\ (p.marker = "partial" => p.type = "panos")
   /\ (p.fphase \in {"arm", "disarm"} => p.type = "ios")
   /\ (p.fphase = "apply" => p.fidx <= p.n) /\ (p.fphase # "apply" => p.fidx = 1)
   /\ (p.fkind = "none" => p.fphase = "login")
@@ -85,8 +88,8 @@ Fetch     == ph = "fetch" /\ IF FaultHere("fetch") THEN Abort ELSE Advance("gate
 Gate ==
   /\ ph = "gate"
   /\ IF par.verb = "compare"
-     THEN Finish(0, par.marker = "absent") /\ UNCHANGED <<par, nsent, naccepted, armed, saved, noticed, postFault>>
-     ELSE IF par.marker = "absent" THEN Abort
+     THEN Finish(0, par.marker \in NoMarker) /\ UNCHANGED <<par, nsent, naccepted, armed, saved, noticed, postFault>>
+     ELSE IF par.marker \in NoMarker THEN Abort
      ELSE IF par.n = 0 THEN Finish(0, FALSE) /\ UNCHANGED <<par, nsent, naccepted, armed, saved, noticed, postFault>>
      ELSE Advance(IF par.type = "ios" THEN "arm" ELSE "apply")
 
